@@ -218,6 +218,10 @@ fn apply_delta(py: Python, py_src_buf: Py<PyAny>, py_delta: Py<PyAny>) -> PyResu
             out[outindex..outindex + cp_size].copy_from_slice(&src_buf[cp_off..cp_off + cp_size]);
             outindex += cp_size;
         } else if cmd != 0 {
+            // A truncated insert is an error, whatever the declared size
+            if index + cmd as usize > delta_len {
+                return Err(ApplyDeltaError::new_err("delta truncated in insert op"));
+            }
             if (cmd as usize) > dest_size {
                 break;
             }
@@ -225,9 +229,6 @@ fn apply_delta(py: Python, py_src_buf: Py<PyAny>, py_delta: Py<PyAny>) -> PyResu
             // Raise ApplyDeltaError if there are more bytes to copy than space
             if outindex + cmd as usize > dest_size {
                 return Err(ApplyDeltaError::new_err("Not enough space to copy"));
-            }
-            if index + cmd as usize > delta_len {
-                return Err(ApplyDeltaError::new_err("delta not empty"));
             }
 
             out[outindex..outindex + cmd as usize]
